@@ -370,15 +370,26 @@ impl<'s, P: Clone + Eq, R: FnMut(Import<&'s str, P>) -> ReadResult<P>> Loader<&'
     }
 
     fn find(&mut self, arena: &'s Arena, import: Import<&'s str, P>) -> Result<usize, String> {
-        let file = (self.read)(import)?;
+        let file = (self.read)(import);
+        #[cfg(jaq_verif)]
+        if file.is_err() {
+            verif_event("ReadErr", 0);
+        }
+        let file = file?;
 
         let mut mods = self.mods.iter();
         if let Some(id) = mods.position(|(file_, _)| file.path == file_.path) {
+            #[cfg(jaq_verif)]
+            verif_event("Reuse", id);
             return Ok(id);
         };
         if self.open.contains(&file.path) {
+            #[cfg(jaq_verif)]
+            verif_event("Cycle", 0);
             return Err("circular include/import".into());
         }
+        #[cfg(jaq_verif)]
+        verif_event("Enter", self.open.len());
 
         let code = &**arena.alloc(file.code);
         self.open.push(file.path.clone());
@@ -391,10 +402,19 @@ impl<'s, P: Clone + Eq, R: FnMut(Import<&'s str, P>) -> ReadResult<P>> Loader<&'
         assert!(self.open.pop().as_ref() == Some(&file.path));
 
         let id = self.mods.len();
+        #[cfg(jaq_verif)]
+        verif_event("Exit", id);
         let path = file.path;
         self.mods.push((File { path, code }, defs));
         Ok(id)
     }
+}
+
+/// Verification hook (only with `--cfg jaq_verif`): one line per step of the module loader on standard error.
+#[cfg(jaq_verif)]
+fn verif_event(_event: &str, _id: usize) {
+    #[cfg(feature = "std")]
+    std::eprintln!("JAQ_VERIF {_event} {_id}");
 }
 
 fn parse_main(code: &str) -> Result<parse::Module<&str, Term<&str>>, Error<&str>> {
